@@ -7,6 +7,7 @@ from __future__ import annotations
 
 import contextlib
 import hashlib
+import multiprocessing as mp
 import json
 import os
 import re
@@ -43,7 +44,19 @@ def seed() -> int:
     return 0
 
 
+def quiet_logging():
+  import logging  # pylint: disable=g-import-not-at-top
+  logging.disable(logging.CRITICAL)
+  try:
+    from absl import logging as absl_logging  # pylint: disable=g-import-not-at-top
+    absl_logging.set_verbosity(absl_logging.FATAL)
+    absl_logging.set_stderrthreshold('fatal')
+  except Exception:  # pylint: disable=broad-except
+    pass
+
+
 def assert_repo_fiddle():
+  quiet_logging()
   import fiddle  # pylint: disable=g-import-not-at-top
   path = os.path.realpath(fiddle.__file__)
   if not path.startswith(os.path.realpath(REPO) + os.sep):
@@ -390,6 +403,34 @@ def validate_evidence(ev: dict):
         raise MachineryError('evidence: translation_validation counts')
     elif not generic():
       raise MachineryError('evidence: translation_validation keys missing')
+
+
+class Dispatcher:
+  """Feeds TLC's emitted lines to a process pool in chunks."""
+
+  def __init__(self, workfn, chunk=1500):
+    self.pool = mp.Pool(NCPU)
+    self.workfn = workfn
+    self.chunk = chunk
+    self.buf = []
+    self.pending = []
+
+  def __call__(self, line):
+    self.buf.append(line)
+    if len(self.buf) >= self.chunk:
+      self.flush()
+
+  def flush(self):
+    if self.buf:
+      self.pending.append(self.pool.apply_async(self.workfn, (self.buf,)))
+      self.buf = []
+
+  def results(self):
+    self.flush()
+    for p in self.pending:
+      yield p.get()
+    self.pool.close()
+    self.pool.join()
 
 
 def main_wrapper(fn):
